@@ -9,33 +9,42 @@ from ..core import Case
 
 ID = 'C14'
 MANIFEST = {
-    'text': ('Coq theorems (unbounded: every list length, every partition of a row into 1-D/2-D blocks, every limit >= 0): '
-             'C14_ffill_axis1_any_layout -- the block-wise axis-1 forward fill of TypeBlocks (bridging_values / bridging_count / bridging_isna '
-             'carried across blocks) equals the two-line per-row specification S_ffill for EVERY block layout; '
-             'C14_bfill_axis1_any_layout_guarded -- the same for backward fill under the explicit guard bwd_dom (the unguarded statement is '
-             'refuted by Refuted/C14.v: a finding); C14_dir1d_forward/backward -- the binary_transition + slices_from_targets algorithm of '
-             'Series / axis-0 fills equals S_ffill / S_bfill; C14_sided_axis1_any_layout -- leading/trailing fills across blocks equal the '
-             'per-row specification; C14_ffill_exact -- S_ffill copies exactly the nearest preceding present value into at most `limit` cells; '
-             'C14_fill_never_changes_present; C14_isna_exact (over the kind constants regenerated from util.py); C14_count_spec; C14_dropna_exact. '
-             'Correspondence: kernel level (binary_transition 1-D/2-D, slices_from_targets on every Boolean vector up to a bound) and API level '
-             '(Series / Frame isna, notna, count, dropna, fillna by element and by labelled container, leading/trailing/forward/backward fills on '
-             'both axes) exhaustively over every missing pattern x every block layout x limit 0..n of small shapes, plus a random stream of '
-             'bigger mixed-dtype frames.'),
-    'note': ('trusted: Coq kernel, the hand-written models SF/Missing.v (tied to /repo only by the correspondence cases of the run), the harness, '
-             'NumPy (isnan/isnat/astype/assignment are not modelled: cells are compared as Python values, a missing marker may change kind). '
-             'Vectorised NumPy row operations are modelled per row; the whole-block fast path (no missing cell in any row) is modelled by a flag. '
-             'dropna / fillna(container) / count have specification-level checks (impl vs S) and no separate implementation-model theorem.'),
-    'technique': 'refinement proof M = S by induction over the block list with the invariant "bridging state = S_ffill carry"; differential correspondence',
+    'text': ('Coq theorems, all unbounded (every list length, every number of rows, every partition of a row into 1-D/2-D blocks of any widths, '
+             'every limit >= 0 with 0 = unlimited): C14_ffill_axis1_any_layout / C14_ffill_row_any_partition -- the block-wise axis-1 forward fill '
+             'of TypeBlocks._fillna_directional_axis_1 (bridging_values / bridging_count / bridging_isna carried across blocks, whole-block fast '
+             'path, limit trimming) equals the two-line per-row specification S_ffill for EVERY block layout, by induction over the block list with '
+             'the invariant "bridging state = S_ffill carry at the block boundary"; C14_bfill_axis1_any_layout_guarded (+ _nolimit) -- the same for the '
+             'backward walk under the explicit guard frame_bwd_dom; unguarded it is FALSE of the code (Refuted/C14.v, finding C14-bfill-axis1-bridge-count); '
+             'C14_dir1d_forward / _backward -- binary_transition + slices_from_targets + slice assignment (Series, axis 0) equal S_ffill / S_bfill; '
+             'C14_sided_axis1_any_layout, C14_sided1d -- leading/trailing fills (isna_exit_previous across blocks, reversed walk) equal S_leading / S_trailing; '
+             'C14_ffill_exact, C14_bfill_exact, C14_decomposition, C14_leading_exact -- S copies exactly the nearest preceding (following) present value into exactly '
+             'min(run, limit) cells; C14_fill_never_changes_present; C14_fillna_exact; C14_isna_exact (over the kind constants REGENERATED from util.py); '
+             'C14_count_spec; C14_dropna_exact. Correspondence on every run: kernel level (util.binary_transition 1-D and per line of 2-D, util.slices_from_targets '
+             'on every Boolean vector up to the tier bound) and API level (Series / Frame isna, notna, count, dropna both axes all/any, fillna by element and by '
+             'labelled Series/Frame, leading/trailing/forward/backward fills on both axes) exhaustively over every missing pattern x every block layout x limit x '
+             'direction of the small shapes listed in RULE, plus a seeded random stream of larger mixed-dtype frames and a malformed-input stream.'),
+    'note': ('trusted: Coq kernel; the hand-written models SF/Missing.v, SF/MissingCheck.v (tied to /repo only by the correspondence cases of the run -- 0 impl!=M required); '
+             'the harness; NumPy (isnan / isnat / astype / slice assignment are not modelled: cells are compared as Python values, a missing marker may change kind, '
+             'an int copied into a float block is compared by value). Vectorised NumPy row operations are modelled per row; the whole-block fast path of the axis-1 fills '
+             '(no missing cell in ANY row) is modelled by a per-block flag computed from all rows. Partial: dropna, fillna(labelled container), count, notna have '
+             'specification-level checks (impl vs S on every case) and theorems about S, but no separate implementation model; dtype of the result is not compared; '
+             'datetime64 units other than D, 0-row / 0-column frames, tuple cells, negative limits and hierarchical labels are outside the checked domain. '
+             'Known findings (2): backward axis-1 fill with limit across a 2-D block; Frame.dropna(axis=1) on a single 1-D block.'),
+    'technique': 'refinement proof M = S by induction over the block list (invariant: bridging state = carry of S); kernel proofs over run/group decomposition; differential correspondence',
 }
 PROPERTY_FILES = ['Properties/C14.v']
 REFUTED_FILES = ['Refuted/C14.v']
 MODEL_FILES = ['SF/Missing.v', 'SF/MissingCheck.v']
 TRANSLATED = ['DTYPE_INEXACT_KINDS', 'DTYPE_NAT_KINDS']
 IMPORTS = 'Require Import SF.Prelude SF.Value SF.Dtype SF.Missing SF.MissingCheck.'
-RULE = ('kernel strata: util.binary_transition (1-D and per line of 2-D) and util.slices_from_targets called directly on EVERY Boolean vector up to '
-        'the tier bound (x direction x limit); api strata: public Series/Frame calls on every missing pattern of the small shapes listed in '
-        'input_distribution x every block layout (zoo.layouts_for) x limit 0..n x direction x axis, then a seeded random stream of larger '
-        'mixed-dtype frames; a case is non-trivial when the input has at least one missing cell; distinct = distinct (operation, input, layout, arguments)')
+RULE = ('kernel strata: util.binary_transition on EVERY Boolean vector of length <= 8 (quick) / 11 (thorough) and per line of every 2-D Boolean array of the listed shapes; '
+        'util.slices_from_targets on every Boolean vector of length <= 6 / 9 x direction x limit 0..3, all called directly. '
+        'api strata, exhaustive: Series (float / object-None / object-NaN / datetime64[D]) every missing pattern of length <= 5 / 7 x every operation x limit 0..n; '
+        'Frames 1 x n float columns (n <= 4 quick, <= 5 thorough, 1 x 6 with limits 1,2) every pattern x EVERY block layout (zoo.layouts_for) x limit 0..n x forward/backward on axis 1; '
+        '2 x 3 (thorough also 2 x 4, 3 x 3) every pattern x every layout x limits x directions x both axes + leading/trailing; mixed frames (float/object/datetime between int/bool/str '
+        'columns) every pattern x every layout x all operations; 2 x 2 x label sub/supersets for fillna(Frame); 3 cells x label subsets for fillna(Series). '
+        'Then a seeded sample of 1 x 5 (quick) and a seeded random stream of frames up to 4 x 8 with random kinds/layout/limit, and 8 malformed calls. '
+        'A case is non-trivial when the input has at least one missing cell; distinct = distinct (operation, input, layout, arguments).')
 ASSUMPTIONS = ['limit = 0 means "no limit" (library convention, documented in the fillna docstrings); limit >= 0',
                'NumPy elementwise semantics: isnan / isnat / != / astype(object) keep every present value (datetime64[D] only; ns is outside the model)',
                'index and column labels are unique (C02)']
@@ -43,6 +52,8 @@ TRUSTED = ['per-row modelling of vectorised NumPy operations in TypeBlocks._fill
 EXHAUSTIVE = {'quick': True, 'thorough': True}
 
 FINDING_BFILL = 'C14-bfill-axis1-bridge-count'
+FINDING_DROPNA = 'C14-dropna-axis1-single-1d-block'
+FINDING_DTNS = 'C14-dt64ns-object-cast'
 
 # ---------------------------------------------------------------------------------------------- values
 EPOCH = np.datetime64('2020-01-01', 'D')
@@ -391,7 +402,17 @@ def frame_simple(ctx, kinds, mask, layout):
                    py_fail=None if lit.labels(c.index) == want_labels else f'count(axis={axis}) is labelled {lit.labels(c.index)}',
                    tags={'op': 'count', 'axis': axis, **tag}, nontrivial=nt)
         for use_any in (False, True):
-            d = f.dropna(axis=axis, condition=np.any if use_any else np.all)
+            call = f'f.dropna(axis={axis}, condition=np.{"any" if use_any else "all"})'
+            dtags = {'op': 'dropna', 'axis': axis, 'any': use_any, **tag}
+            if axis == 1 and tuple(layout) == ((1, False),):
+                dtags['finding'] = FINDING_DROPNA     # input class by construction: one column held as a single 1-D block, axis=1
+            try:
+                d = f.dropna(axis=axis, condition=np.any if use_any else np.all)
+            except Exception as e:  # noqa
+                yield Case('api:frame-dropna', desc_of(kinds, mask, layout, call, lit.err_class(e)),
+                           py_fail=f'{call} raised {type(e).__name__}: dropna must return the frame without the dropped rows/columns',
+                           tags=dtags, nontrivial=nt)
+                continue
             dcols = frame_cols(d)
             if axis == 1:
                 lines_lit = cols_lit(dcols)
@@ -403,11 +424,10 @@ def frame_simple(ctx, kinds, mask, layout):
             if other != (index if axis == 1 else columns):
                 py_fail = f'dropna(axis={axis}) changed the labels of the other axis: {other}'
             yield Case('api:frame-dropna',
-                       desc_of(kinds, mask, layout, f'f.dropna(axis={axis}, condition=np.{"any" if use_any else "all"})',
-                               {'labels': olabels, 'shape': list(d.shape)}),
+                       desc_of(kinds, mask, layout, call, {'labels': olabels, 'shape': list(d.shape)}),
                        s=(f'chk_dropna_frame_S {lit.b(axis == 1)} {lit.b(use_any)} {nat(nrows)} {lit.vlist(index)} {lit.vlist(columns)} {inp} '
                           f'{lit.vlist(olabels)} {lines_lit}'),
-                       py_fail=py_fail, tags={'op': 'dropna', 'axis': axis, 'any': use_any, **tag}, nontrivial=nt)
+                       py_fail=py_fail, tags=dtags, nontrivial=nt)
     fill = -7
     out = frame_cols(f.fillna(fill))
     yield Case('api:frame-fillna', desc_of(kinds, mask, layout, f'f.fillna({fill})', obs_cols(out)),
@@ -443,28 +463,50 @@ def layouts(kinds):
 
 def frame_cases(ctx):
     quick = ctx.tier == 'quick'
+    rng = ctx.rng
     # (1) axis-1 directional, one row, float columns: every pattern x every layout x limit 0..n x both directions
-    top = 5 if quick else 6
+    top = 4 if quick else 5
     for n in range(1, top + 1):
         kinds = ['F'] * n
         for layout in layouts(kinds):
             for mask in masks(1, kinds):
                 yield from frame_directional(ctx, kinds, mask, layout, range(0, n + 1))
-    # (2) two/three rows (the whole-block fast path depends on the other rows), all patterns, all layouts
-    shapes = [(2, 3)] if quick else [(2, 3), (3, 3), (2, 4)]
-    for r, c in shapes:
-        kinds = ['F'] * c
+    if quick:
+        # 1 x 5: a seeded sample of (pattern, layout, limit, direction)
+        kinds = ['F'] * 5
+        lays = layouts(kinds)
+        for _ in range(ctx.n(1500, 0)):
+            mask = [[rng.random() < 0.5] for _ in kinds]
+            yield from frame_directional(ctx, kinds, mask, rng.choice(lays), (rng.randint(0, 4),), dirs=(rng.random() < 0.5,))
+    else:
+        # 1 x 6: every pattern x every layout, limits 1 and 2 (the interesting ones for 6 cells), both directions
+        kinds = ['F'] * 6
         for layout in layouts(kinds):
-            for mask in masks(r, kinds):
-                yield from frame_directional(ctx, kinds, mask, layout, range(0, min(c, 3) + 1), axes=(0, 1))
-                yield from frame_sided(ctx, kinds, mask, layout)
+            for mask in masks(1, kinds):
+                yield from frame_directional(ctx, kinds, mask, layout, (1, 2))
+    # (2) two/three rows (the whole-block fast path depends on the other rows), all patterns, all layouts
+    kinds = ['F'] * 3
+    for layout in layouts(kinds):
+        for mask in masks(2, kinds):
+            yield from frame_directional(ctx, kinds, mask, layout, (0, 1, 2) if quick else (0, 1, 2, 3), axes=(1,))
+            yield from frame_directional(ctx, kinds, mask, layout, (1,) if quick else (0, 1, 2), axes=(0,))
+            yield from frame_sided(ctx, kinds, mask, layout)
+    if not quick:
+        kinds = ['F'] * 4
+        for layout in layouts(kinds):
+            for mask in masks(2, kinds):
+                yield from frame_directional(ctx, kinds, mask, layout, (1,), axes=(1,))
+        kinds = ['F'] * 3
+        for layout in layouts(kinds):
+            for mask in masks(3, kinds):
+                yield from frame_directional(ctx, kinds, mask, layout, (1,), axes=(1,))
     # (3) mixed dtypes: float / object / datetime columns between never-missing int / bool / str columns
-    mixes = ['IFO', 'FSD', 'BDF', 'OIF'] if quick else ['IFO', 'FSD', 'BDF', 'OIF', 'FIFO', 'DFSB', 'OFDI', 'NFI', 'FFOO', 'IFFD']
+    mixes = ['IFO', 'FSD', 'BDF'] if quick else ['IFO', 'FSD', 'BDF', 'OIF', 'FIFO', 'DFSB', 'OFDI', 'NFI', 'FFOO', 'IFFD']
     for mix in mixes:
         kinds = list(mix)
         for layout in layouts(kinds):
             for mask in masks(2 if len(mix) == 3 else 1, kinds):
-                yield from frame_directional(ctx, kinds, mask, layout, (0, 1, 2), axes=(0, 1))
+                yield from frame_directional(ctx, kinds, mask, layout, (0, 1) if quick else (0, 1, 2), axes=(0, 1))
                 yield from frame_sided(ctx, kinds, mask, layout)
                 yield from frame_simple(ctx, kinds, mask, layout)
     # (4) label-aligned fill from a Frame: every pattern of a 2x2 float frame x sub/super-sets of labels
@@ -482,8 +524,10 @@ def frame_cases(ctx):
         kinds = ['F'] * len(miss_row)
         layout = ((1, False), (len(miss_row) - 1, True))
         yield from frame_directional(ctx, kinds, [[m] for m in miss_row], layout, (limit,), dirs=(False,))
+    # (5b) second known finding witnessed in every run: one float column held as a 1-D block, dropna(axis=1)
+    yield from frame_simple(ctx, ['F'], [[False, True]], ((1, False),))
+    yield from frame_simple(ctx, ['F'], [[False, True]], ((1, True),))
     # (6) random stream: bigger mixed frames, random layout, random limit
-    rng = ctx.rng
     for _ in range(ctx.n(250, 4000)):
         r = rng.randint(1, 4)
         c = rng.randint(1, 8)
@@ -533,8 +577,37 @@ def malformed_cases(ctx):
                    tags={'op': 'malformed'}, nontrivial=True)
 
 
+def dt64ns_cases(ctx):
+    '''Third known finding, witnessed in every run: a fill that forces a datetime64[ns] array to object dtype (fill / bridging value of another kind)
+    turns the PRESENT datetimes into integers (ndarray.astype(object) on ns resolution).  Input class by construction: datetime64[ns] line with a present
+    value and a missing cell, filled with a non-datetime value.'''
+    import static_frame as sf
+    a = np.array(['2020-01-01T00:00:01', 'NaT', '2020-01-03T00:00:00'], dtype='datetime64[ns]')
+    a.flags.writeable = False
+    s = sf.Series(a, index=('k0', 'k1', 'k2'))
+    inp = col_lit(a)
+    tags = {'finding': FINDING_DTNS, 'kind': 'datetime64[ns]'}
+    out = s.fillna(0).values
+    ctx.count('dt64ns')
+    yield Case('api:dt64ns-object-cast', {'series': [str(x) for x in a], 'call': 's.fillna(0)', 'observed': [repr(x) for x in out.tolist()]},
+               s=f'chk_fillna_S (VInt 0) {inp} {col_lit(out)}', tags=dict(tags, op='fillna'), nontrivial=True)
+    b = np.array(['NaT', '2020-01-01T00:00:01'], dtype='datetime64[ns]')
+    f = sf.Frame.from_items((('a', np.array([1, 2])), ('b', b)), index=('r0', 'r1'))
+    cols = [np.array([1, 2]), b]
+    for call, fr in (('f.fillna_forward(axis=1)', f.fillna_forward(axis=1)), ('f.fillna_leading(0, axis=0)', f.fillna_leading(0, axis=0))):
+        out = frame_cols(fr)
+        ctx.count('dt64ns')
+        if 'forward' in call:
+            chk = f'chk_dir_axis1_S true 0 {nat(2)} {cols_lit(cols)} {cols_lit(out)}'
+        else:
+            chk = f'chk_sided_axis0_S true (VInt 0) {cols_lit(cols)} {cols_lit(out)}'
+        yield Case('api:dt64ns-object-cast', {'columns': [[1, 2], [str(x) for x in b]], 'call': call, 'observed': [[repr(x) for x in c.tolist()] for c in out]},
+                   s=chk, tags=dict(tags, op='frame-fill'), nontrivial=True)
+
+
 def cases(ctx):
     yield from kernel_cases(ctx)
+    yield from dt64ns_cases(ctx)
     yield from series_cases(ctx)
     yield from frame_cases(ctx)
     yield from malformed_cases(ctx)
